@@ -33,6 +33,9 @@ type Step struct {
 	Batch  int    `json:"batch"`  // 0: the record alone; 1: [decoy, record]; 2: [record, decoy]; 3: [decoy, record, decoy] in ONE AnalyzeData call
 	Reconf bool   `json:"reconf"` // call ConfigurePulseLengths(len, pre) before the step (when the pair is legal)
 	Hold   bool   `json:"hold"`   // keep the analysed records and read their values only after ALL later steps of the history
+	DLen   int    `json:"dlen"`   // decoys of a batch have length len+DLen (only when no projectors are loaded: projections need one length)
+	DPre   int    `json:"dpre"`   // ... and presamples pre+DPre (clamped into 1..their length-1)
+	DSign  bool   `json:"dsign"`  // ... and the opposite signedness
 	View   int    `json:"view"`   // 0: matrices from mat.NewDense (contiguous); 1,2: Slice views into larger matrices (Stride > Cols)
 }
 
@@ -411,23 +414,48 @@ func runStep(st *benchState, c Step, tags map[string]bool) func() (string, implO
 				out.Panic = true
 			}
 		}()
+		me := dastard.VerifRecSpec{Data: data, Pre: c.Pre, Signed: c.Signed}
 		if c.Batch == 0 || n == 0 {
-			held = dsp.VerifAnalyzeHeld([][]uint16{data}, c.Pre, c.Signed)
+			held = dsp.VerifAnalyzeMixed([]dastard.VerifRecSpec{me})
 			return
 		}
-		// the same record analysed next to other records in one call: results must not depend on neighbours
-		decoy := make([]uint16, n)
-		for i := range decoy {
-			decoy[i] = data[(i+1)%n] + 12345
+		// the same record analysed next to other records in one call: results must not depend on neighbours.
+		// Without projectors the neighbours have another length, pre-trigger length and signedness
+		// (variable-length records of edge-multi triggering); with projectors all records have one length.
+		dn, dp, ds := n, c.Pre, c.Signed
+		if !st.loaded {
+			dn = n + c.DLen
+			if dn < 2 {
+				dn = 2
+			}
+			dp = c.Pre + c.DPre
+			if dp > dn-1 {
+				dp = dn - 1
+			}
+			if dp < 1 {
+				dp = 1
+			}
+			ds = c.Signed != c.DSign
+			switch {
+			case dn > n:
+				tags["batch-neighbour-longer"] = true
+			case dn < n:
+				tags["batch-neighbour-shorter"] = true
+			}
 		}
+		decoy := make([]uint16, dn)
+		for i := range decoy {
+			decoy[i] = data[(i+1)%n]*3 + 12345 + uint16(7*i)
+		}
+		dc := dastard.VerifRecSpec{Data: decoy, Pre: dp, Signed: ds}
 		tags[fmt.Sprintf("batch%d", c.Batch)] = true
 		switch c.Batch {
 		case 1:
-			held, idx = dsp.VerifAnalyzeHeld([][]uint16{decoy, data}, c.Pre, c.Signed), 1
+			held, idx = dsp.VerifAnalyzeMixed([]dastard.VerifRecSpec{dc, me}), 1
 		case 2:
-			held, idx = dsp.VerifAnalyzeHeld([][]uint16{data, decoy}, c.Pre, c.Signed), 0
+			held, idx = dsp.VerifAnalyzeMixed([]dastard.VerifRecSpec{me, dc}), 0
 		default:
-			held, idx = dsp.VerifAnalyzeHeld([][]uint16{decoy, data, decoy}, c.Pre, c.Signed), 1
+			held, idx = dsp.VerifAnalyzeMixed([]dastard.VerifRecSpec{dc, me, dc}), 1
 		}
 	}()
 	if c.Hold {
@@ -718,6 +746,12 @@ func corpus() []Case {
 			{Pre: 4, Data: pw, K: 2, MStyle: 1, MSeed: 7, Hold: true, Kind: "corpus-held"},
 			{Pre: 4, Data: []int{128, 64, 32, 16, 8, 4, 2, 1}, K: 2, MStyle: 1, MSeed: 7, Hold: true, Batch: 1, Kind: "corpus-held"},
 			{Pre: 4, Data: []int{7, 7, 7, 7, 900, 800, 700, 600}, K: 2, MStyle: 1, MSeed: 7, Kind: "corpus-held"}}},
+		// records of different lengths in ONE AnalyzeData call: long then short, short then long, both sides
+		{Steps: []Step{
+			{Pre: 3, Data: []int{100, 100, 100, 400, 300}, Batch: 1, DLen: 11, DPre: 5, Kind: "corpus-mixed"},
+			{Pre: 6, Data: ramp(24, 6, 50000, -9), Batch: 2, DLen: -10, DPre: -2, Signed: true, DSign: true, Kind: "corpus-mixed"},
+			{Pre: 4, Data: ramp(10, 4, 20, 5), Batch: 3, DLen: 30, Signed: true, Kind: "corpus-mixed"},
+			{Pre: 3, Data: []int{65535, 0, 65535, 0, 65535, 0}, Batch: 1, DLen: 1, DSign: true, Kind: "corpus-mixed"}}},
 	}
 }
 
@@ -743,7 +777,8 @@ func gen(seed uint64, tier string) []interface{} {
 		n, p := genSizes(q, i >= nScalar)
 		kind := kinds[i%len(kinds)]
 		steps = append(steps, Step{Signed: q.Bool(), Pre: p, Data: genRecord(q, kind, n, p), Kind: kind,
-			Batch: q.Pick([]int{0, 0, 1, 2, 3}), Reconf: q.Chance(1, 3), Hold: q.Bool()})
+			Batch: q.Pick([]int{0, 0, 1, 2, 3}), Reconf: q.Chance(1, 3), Hold: q.Bool(),
+			DLen: q.Pick([]int{0, 1, 5, 40, -1, -3, -30, n, -n / 2}), DPre: q.Pick([]int{0, 0, 1, -1, 7, -7}), DSign: q.Chance(1, 3)})
 	}
 	for i := 0; i < nProj+nProjBig+nBad; i++ {
 		q := r.Fork()
@@ -760,7 +795,7 @@ func gen(seed uint64, tier string) []interface{} {
 		kind := kinds[(i*7+3)%len(kinds)]
 		c := Step{Signed: q.Bool(), Pre: p, Data: genRecord(q, kind, n, p), Kind: kind,
 			K: k, MStyle: i % 4, MSeed: q.U64(), Batch: q.Pick([]int{0, 0, 1, 2, 3}), Reconf: q.Chance(1, 3), Hold: q.Bool(),
-			View: q.Pick([]int{0, 0, 1, 2, 3})}
+			View: q.Pick([]int{0, 0, 1, 2, 3}), DLen: q.Pick([]int{0, 3, -3, 20}), DPre: q.Pick([]int{0, 1, -1}), DSign: q.Chance(1, 3)}
 		if i >= nProj+nProjBig {
 			c.Bad = 1 + i%3
 		}
